@@ -40,7 +40,7 @@ pub struct X86 {
   pub steps: u32,
   pub fault: u32,
   /// immediates supplied out of band: (position in the template, value); position usize::MAX = unused
-  pub imm: [(usize, u8); 4],
+  pub imm: [(usize, u8); 6],
 }
 
 fn parity(b: u8) -> bool { b.count_ones() % 2 == 0 }
@@ -50,7 +50,7 @@ fn mask(bits: u32) -> u64 { if bits == 64 { !0 } else { (1u64 << bits) - 1 } }
 impl X86 {
   pub fn new(r: [u64; 16]) -> Self {
     X86 { r, cf: false, pf: false, af: false, zf: false, sf: false, of: false,
-      stack: [0; STACK_BYTES], sp_off: STACK_BYTES, pc: 0, exit: Exit::Running, steps: 0, fault: 0, imm: [(usize::MAX, 0); 4] }
+      stack: [0; STACK_BYTES], sp_off: STACK_BYTES, pc: 0, exit: Exit::Running, steps: 0, fault: 0, imm: [(usize::MAX, 0); 6] }
   }
 
   pub fn rflags(&self) -> u64 {
@@ -203,7 +203,7 @@ impl X86 {
     if self.pc > len || len > code.len() { self.exit = Exit::Fault(20); return Next::Done; }
     self.steps += 1;
     let mut p = self.pc;
-    macro_rules! fetch { () => {{ if p >= len { self.exit = Exit::Fault(21); return Next::Done; } let b = if p == self.imm[0].0 { self.imm[0].1 } else if p == self.imm[1].0 { self.imm[1].1 } else if p == self.imm[2].0 { self.imm[2].1 } else if p == self.imm[3].0 { self.imm[3].1 } else { code[p] }; p += 1; b }}; }
+    macro_rules! fetch { () => {{ if p >= len { self.exit = Exit::Fault(21); return Next::Done; } let b = if p == self.imm[0].0 { self.imm[0].1 } else if p == self.imm[1].0 { self.imm[1].1 } else if p == self.imm[2].0 { self.imm[2].1 } else if p == self.imm[3].0 { self.imm[3].1 } else if p == self.imm[4].0 { self.imm[4].1 } else if p == self.imm[5].0 { self.imm[5].1 } else { code[p] }; p += 1; b }}; }
     let mut opsize16 = false;
     let mut b = fetch!();
     if b == 0x66 { opsize16 = true; b = fetch!(); }
